@@ -36,10 +36,15 @@ class Body:
         self.argc = raw["argc"]
         self.local_ty = {l["i"]: l["ty"] for l in raw["locals"]}
         self.names = {}
+        self.upvars = {}          # closure bodies: captured variable index -> its name in the enclosing function
         for nm in raw["names"]:
             pl = nm["place"]
             if not pl.get("p"):
                 self.names.setdefault(pl["l"], nm["name"])
+            elif pl["l"] == 1 and "{closure" in raw["path"]:
+                fl = [p for p in pl["p"] if p["k"] != "Deref"]
+                if len(fl) == 1 and fl[0]["k"] == "Field":
+                    self.upvars.setdefault(fl[0]["i"], nm["name"])
         self.succ = [self._succ(b["term"]) for b in self.blocks]
         self.pred = [[] for _ in range(self.n)]
         for i, ss in enumerate(self.succ):
@@ -187,10 +192,17 @@ class Body:
 
     def place(self, pl, depth=0):
         base = self.local(pl["l"], depth)
+        first = True
         for pr in pl.get("p") or []:
             k = pr["k"]
             if k == "Deref":
                 continue
+            if k == "Field" and first and pl["l"] == 1 and self.upvars and pr["i"] in self.upvars and base[0] in ("var", "tmp"):
+                # a captured variable: call it by the name it has in the enclosing function
+                base = ("var", self.upvars[pr["i"]], ("upvar", pr["i"]))
+                first = False
+                continue
+            first = False
             if k == "Field":
                 name = pr.get("name", str(pr["i"]))
                 if base and base[0] in ("AddWithOverflow", "SubWithOverflow", "MulWithOverflow") and pr["i"] == 0:
